@@ -11,6 +11,17 @@ CLAIMED = {
     "C04": ("theorems apply_total, apply_partition, rejected_are_shifted (apply_patch level); tie T3; oracles: no exception for well-formed "
             "patches, failure count = hunks not applied, reject bytes parsed by an independent strict parser hold exactly those hunks, output "
             "explained by exactly the hunks reported applied. Driver-level clauses (exit status, reject file on disk) are added by the driver tie when built", "5/C04"),
+    "C01": ("theorems C01_core, C01_bytes (apply_patch on every valid script = the new file, every hunk at its stated line, nothing rejected/asked/printed), "
+            "diffTrim_valid (a valid script exists for every file pair); ties T3, T4; oracles: output = B for generated pairs under random options; hunks parsed "
+            "from GNU diff / emitter text are a Valid script whose splice is B (Lean spec). Driver-level clauses are added by the driver tie when built", "5/C01"),
+    "C12": ("theorems strip_spec, strip_negative, basename_spec, stripSpec_add/components/too_few, quote_roundtrip (all byte strings), file_line_plain/quoted, "
+            "devnull_never_stripped; tie T6 exhaustive small scope on the sanitised build; oracles: independent -pN, decode(quote(name)) = name", "5/C12"),
+    "C13": ("theorems unified_roundtrip, context_roundtrip (parse(write(hunks)) denotes the same changes, stream left at what follows), number/range round "
+            "trips, reject_format_choice, reject_bytes_layout; ties T5 (exhaustive interleavings), T4 read-back, T3; oracles: independent strict readers, "
+            "read-back by the implementation, shift by net growth, format choice", "5/C13"),
+    "C19": ("theorems over any well-formed option table (short attached/separate, long =/separate, short=long, unambiguous prefix, ambiguous prefix rejected, "
+            "bundle, --, operand position, rejections) + table_wf/table_handled by decide over the table REGENERATED from src/options.cpp on every run; tie T7 "
+            "exhaustive over options x spellings x prefixes", "5/C19"),
     "C14": ("theorems read_write_id, render_lf, render_crlf, render_keep, final_newline, splitLines_* invariants, hunkOutput_sources, "
             "spliceAt_sources; ties: reader (bytes->lines), T3 in all four modes; oracles: per-line terminator class and final-newline rule", "5/C14"),
     "C20": ("theorem C20_merge (cppEval of the -D output = new file when defined, = original when not; balanced; nothing rejected) for every valid "
